@@ -52,7 +52,9 @@ def generate(run_seed, tier):
         g = W.Generator(rw, ref_compute, families=fams, knob_space=W.knob_space_default(), max_ops=7 if tier == "quick" else 9,
                         pool_knobs=True, knob_prob=0.6)
         g.allow_partition_size = True
-        g.accept_internal_failures = True
+        # every op that *builds* stays in the recipe even if computing it fails (also with ValueError/TypeError: an
+        # unclosed graph hands key tuples to tasks as data, which often surfaces as a metadata or type error)
+        g.accept_internal_failures = "all"
         # hand-written filtered tasks live in every source kind: draw them evenly
         g.source_kinds = ("from_pandas", "from_pandas", "from_map", "from_map", "from_delayed", "from_delayed", "from_array")
         recipe = g.generate(n_targets=rw.choice([1, 2, 2]))
